@@ -17,8 +17,8 @@ if os.path.exists(log):
     for k in ("DEMO_CLEAN_RC", "BUILD_RC", "DEMO_PATCHED_RC"):
         m = re.search(r"^%s=(-?\d+)" % k, t, re.M)
         conf[k] = int(m.group(1)) if m else None
-    conf["suite_counts"] = re.findall(r"^\s*(\d+) (PASS|FAIL|XFAIL|ERROR):?$", t, re.M)
-    conf["suite_failures"] = sorted(set(re.findall(r"^(?:FAIL|ERROR): (\S+)", t, re.M)))
+    conf["suite_counts"] = re.findall(r"^\s*(\d+) (PASS|FAIL|XFAIL|ERROR):?\s*$", t, re.M)
+    conf["suite_failures"] = sorted(set(re.findall(r"^(?:FAIL|ERROR): (\S+)", t[t.rfind("\nFAILS:"):] if "\nFAILS:" in t else "", re.M)))
 head = subprocess.run(["git", "-C", "/repo", "log", "--format=%h", "-1"], capture_output=True, text=True).stdout.strip()
 meta = {"property": prop, "variant": var, "needs_to_manifest": needs,
         "confirmed_by_me": {"how": "tools/confirm_seed.sh in a scratch worktree: demo on clean tree, apply patch, rebuild, demo again, make -k -j8 check (cached per-test build directories removed first)",
